@@ -176,21 +176,12 @@ func specTMmetaPos0(d []byte, idw int) int {
 	return p + specLenEncSize(d[p])
 }
 
-// position of the metadata of column c (the metadata of columns 0..c-1 precede it)
-func specTMmetaPos(d []byte, idw int, c int) int {
+// end of the metadata of the first c columns when the block starts at p0 (types = the cc type bytes)
+func specMetaEnd(types []byte, p0 int, c int) int {
 	if c <= 0 {
-		return specTMmetaPos0(d, idw)
+		return p0
 	}
-	return specTMmetaPos(d, idw, c-1) + specMetaLen(d[specTMtypesPos(d, idw)+c-1])
-}
-
-// every column type is one the metadata rule knows, and each column's metadata lies inside the body
-func specTMtypesOK(d []byte, idw int, c int) bool {
-	if c <= 0 {
-		return true
-	}
-	return specTMtypesOK(d, idw, c-1) && specMetaLen(d[specTMtypesPos(d, idw)+c-1]) >= 0 &&
-		specTMmetaPos(d, idw, c) <= len(d)
+	return specMetaEnd(types, p0, c-1) + specMetaLen(types[c-1])
 }
 
 func specTMidw(f BinlogFormat) int {
@@ -218,17 +209,22 @@ func specTMWellFormed(d []byte, idw int) bool {
 	if cc > 1<<20 {
 		return false
 	}
-	pm := specTMmetaLenPos(d, idw)
+	n := int(cc)
+	tp := specTMtypesPos(d, idw)
+	pm := tp + n
 	if len(d) < pm+1 || specLenEncSize(d[pm]) == 0 || len(d) < pm+specLenEncSize(d[pm]) {
 		return false
 	}
 	if specLenEncValue(d, pm) > 1<<22 {
 		return false
 	}
-	n := int(cc)
-	return specTMtypesOK(d, idw, n) &&
-		specTMmetaPos(d, idw, n) == specTMmetaPos0(d, idw)+specTMmetaLen(d, idw) &&
-		len(d)-specTMmetaPos(d, idw, n) >= (n+7)/8
+	p0 := specTMmetaPos0(d, idw)
+	types := d[tp : tp+n]
+	return vspec.Forall(0, n, func(c int) bool {
+		return specMetaLen(types[c]) >= 0 && specMetaEnd(types, p0, c+1) <= len(d)
+	}) &&
+		specMetaEnd(types, p0, n) == p0+specTMmetaLen(d, idw) &&
+		len(d)-specMetaEnd(types, p0, n) >= (n+7)/8
 }
 
 func vc_binlogEvent_TableMap_requires(ev binlogEvent, f BinlogFormat) bool {
@@ -236,29 +232,56 @@ func vc_binlogEvent_TableMap_requires(ev binlogEvent, f BinlogFormat) bool {
 		specTMWellFormed(ev[f.HeaderLength:], specTMidw(f))
 }
 
-func vc_binlogEvent_TableMap_loop1_inv(c int, pos int, columnCount int, result *TableMap, data []byte, ev binlogEvent, f BinlogFormat, expectedEnd int) bool {
+// loop 1 (one metadata value per column): stated over the loop's own data — the type bytes already stored in the
+// result and the position the loop started from — so that its proof does not depend on the header parsing
+func vc_binlogEvent_TableMap_loop1_inv(c int, pos int, pre_pos int, columnCount int, result *TableMap, data []byte, f BinlogFormat) bool {
 	idw := specTMidw(f)
-	return c >= 0 && c <= columnCount && pos == specTMmetaPos(data, idw, c) && result != nil &&
+	return c >= 0 && c <= columnCount && result != nil &&
+		// what the header parsing established (proved once, at loop entry)
+		columnCount == specTMcount(data, idw) && pre_pos == specTMmetaPos0(data, idw) && pre_pos >= 0 &&
+		vspec.Window(result.Types, data, specTMtypesPos(data, idw), specTMtypesPos(data, idw)+columnCount) &&
 		len(result.Metadata) == columnCount &&
+		// the loop's own progress
+		pos >= pre_pos && pos == specMetaEnd(result.Types, pre_pos, c) &&
 		vspec.Forall(0, c, func(k int) bool {
-			return result.Metadata[k] == specMeta(data, specTMmetaPos(data, idw, k), data[specTMtypesPos(data, idw)+k])
+			return result.Metadata[k] == specMeta(data, specMetaEnd(result.Types, pre_pos, k), result.Types[k])
 		})
 }
 
-func vc_binlogEvent_TableMap_ensures_schema(ev binlogEvent, f BinlogFormat, tm *TableMap, err error) bool {
+func vc_binlogEvent_TableMap_ensures_ok(ev binlogEvent, f BinlogFormat, tm *TableMap, err error) bool {
+	return err == nil && tm != nil
+}
+
+func vc_binlogEvent_TableMap_ensures_names(ev binlogEvent, f BinlogFormat, tm *TableMap, err error) bool {
+	d := []byte(ev[f.HeaderLength:])
+	idw := specTMidw(f)
+	pn := specTMnamePos(d, idw)
+	return tm.Flags == specLE16(d, idw) &&
+		vspec.EqStr(tm.Database, d[idw+3:idw+3+int(d[idw+2])]) &&
+		vspec.EqStr(tm.Name, d[pn+1:pn+1+int(d[pn])])
+}
+
+func vc_binlogEvent_TableMap_ensures_types(ev binlogEvent, f BinlogFormat, tm *TableMap, err error) bool {
 	d := []byte(ev[f.HeaderLength:])
 	idw := specTMidw(f)
 	n := specTMcount(d, idw)
-	pn := specTMnamePos(d, idw)
-	return err == nil && tm != nil &&
-		tm.Flags == specLE16(d, idw) &&
-		vspec.EqStr(tm.Database, d[idw+3:idw+3+int(d[idw+2])]) &&
-		vspec.EqStr(tm.Name, d[pn+1:pn+1+int(d[pn])]) &&
-		vspec.Window(tm.Types, d, specTMtypesPos(d, idw), specTMtypesPos(d, idw)+n) &&
-		len(tm.Metadata) == n &&
-		vspec.Forall(0, n, func(k int) bool {
-			return tm.Metadata[k] == specMeta(d, specTMmetaPos(d, idw, k), d[specTMtypesPos(d, idw)+k])
-		}) &&
-		tm.CanBeNull.count == n &&
-		vspec.Window(tm.CanBeNull.data, d, specTMmetaPos(d, idw, n), specTMmetaPos(d, idw, n)+(n+7)/8)
+	return vspec.Window(tm.Types, d, specTMtypesPos(d, idw), specTMtypesPos(d, idw)+n) && len(tm.Metadata) == n
+}
+
+func vc_binlogEvent_TableMap_ensures_metadata(ev binlogEvent, f BinlogFormat, tm *TableMap, err error) bool {
+	d := []byte(ev[f.HeaderLength:])
+	idw := specTMidw(f)
+	n := specTMcount(d, idw)
+	p0 := specTMmetaPos0(d, idw)
+	return vspec.Forall(0, n, func(k int) bool {
+		return tm.Metadata[k] == specMeta(d, specMetaEnd(tm.Types, p0, k), tm.Types[k])
+	})
+}
+
+func vc_binlogEvent_TableMap_ensures_nulls(ev binlogEvent, f BinlogFormat, tm *TableMap, err error) bool {
+	d := []byte(ev[f.HeaderLength:])
+	idw := specTMidw(f)
+	n := specTMcount(d, idw)
+	end := specMetaEnd(tm.Types, specTMmetaPos0(d, idw), n)
+	return tm.CanBeNull.count == n && vspec.Window(tm.CanBeNull.data, d, end, end+(n+7)/8)
 }
